@@ -7,6 +7,7 @@ from fractions import Fraction
 from hypothesis import strategies as st
 
 from ..common import Violation, hyp_run, import_auditok, run_cases
+from ..gen import rarely
 from .c10 import content
 
 import_auditok()
@@ -25,7 +26,7 @@ RULE = (
     "step or wrong-typed bounds. Non-trivial = len >= 2, bytes per sample > 1 and a negative or out-of-range bound."
 )
 MUST_HIT = ["view_samples", "view_seconds", "view_millis", "type_error", "negative_bound", "out_of_range", "empty_region",
-            "huge_int"]
+            "huge_int", "region_length_around_power_of_two"]
 ASSUMPTIONS = ["floats beyond 1e15 seconds are not generated (t*rate overflows the sample index space)"]
 BOUNDS = {"quick": dict(n=700, maxlen=12), "thorough": dict(n=15000, maxlen=16)}
 
@@ -121,6 +122,8 @@ def check_case(case, rec):
         classes.add("out_of_range")
     if any(isinstance(x, int) and abs(x) > 2**40 for x in (a, b)):
         classes.add("huge_int")
+    if N >= 255:
+        classes.add("region_length_around_power_of_two")
     rec.note(case, N >= 2 and bps > 1 and (neg or oor), classes, out=len(bytes(got)) // bps)
 
 
@@ -138,6 +141,8 @@ def explicit_cases():
         dict(base, view="millis", a=1, b=5.0),
         dict(base, view="seconds", a={"str": "1"}, b=None),
         dict(base, N=0, view="samples", a=-1, b=1),
+        dict(base, N=65536, view="samples", a=-65536, b=65535),
+        dict(base, N=257, view="seconds", a=25.5, b=25.65),
         dict(base, view="samples", a=0.0, b=3),
         dict(base, view="millis", a=0.0, b=300),
         dict(base, view="seconds", a={"str": ""}, b=0.3),
@@ -157,10 +162,13 @@ def _exh(sw, ch, maxlen):
 def strategy(draw):
     sr = draw(st.sampled_from([8, 10, 100, 1000, 16000, 44100]))
     N = draw(st.integers(0, 40) if sr > 10 else st.one_of(st.integers(0, 40), st.integers(40, 130)))
+    if draw(rarely(30)):
+        N = draw(st.sampled_from([255, 256, 257, 65535, 65536, 65537]))
     base = dict(sr=sr, sw=draw(st.sampled_from([1, 2, 4])), ch=draw(st.integers(1, 3)), N=N,
                 salt=draw(st.integers(0, 10**6)))
     view = draw(st.sampled_from(["samples", "seconds", "millis"]))
-    ints = st.one_of(st.none(), st.integers(-N - 3, N + 3), st.integers())
+    ints = st.one_of(st.none(), st.integers(-N - 3, N + 3), st.integers(),
+                     st.sampled_from([N - 1, N, N + 1, -N, -N - 1, -N + 1, N // 2, 255, 256, 65535, 65536, -256, -65536]))
     if view == "samples":
         bound = ints
     elif view == "seconds":
